@@ -164,10 +164,12 @@ def run_check(prop: str, tier: str, seed: int, only_spec: dict | None = None) ->
     open_keys = {k["key"]: k for k in known if k["property"] == prop and k.get("status") == "open"}
     unlisted = []
     known_hits: Counter = Counter()
+    known_witness: dict = {}
     for v in violations:
         key = v.get("key")
         if key is not None and key in open_keys:
             known_hits[key] += v.get("count", 1)
+            known_witness.setdefault(key, v)
         else:
             unlisted.append(v)
 
@@ -266,7 +268,14 @@ def run_check(prop: str, tier: str, seed: int, only_spec: dict | None = None) ->
                 inconclusive_reasons.append(f"evidence does not validate: {str(e)[:200]}")
 
     for key, n in sorted(known_hits.items()):
-        print(f"KNOWN-FINDING: property={prop} {key} ({n} hits) {open_keys[key]['what']}")
+        # a replayable witness of every recorded finding that was hit in this run
+        wdir = (ROOT / "run" / tag / "replays" / prop) if tag else (ROOT / "replays" / prop)
+        wdir.mkdir(parents=True, exist_ok=True)
+        v = known_witness[key]
+        wpath = wdir / ("known-" + "".join(ch if ch.isalnum() else "_" for ch in key) + ".json")
+        wpath.write_text(json.dumps({"property": prop, "tier": tier, "seed": seed, "known_finding": key, "clause": v.get("clause"), "case": v.get("case"),
+                                     "detail": v.get("detail"), "spec": dict(v["spec"], only=v.get("case"))}, indent=1, default=str))
+        print(f"KNOWN-FINDING: property={prop} {key} ({n} hits; witness {wpath}) {open_keys[key]['what']}")
     print(
         f"[{prop} {tier} seed={seed}] evaluations={evaluations} distinct_nontrivial={len(sigs)} "
         f"monitors={dict(sorted(counters.items()))} skipped={dict(skipped)} wall={time.time() - t0:.1f}s"
